@@ -358,7 +358,7 @@ def gen_lifecycle(p, rng, limit):
 def scenarios_for(pname, p, tier, seed, exe=None):
     """-> list of (scenario name, script text)"""
     rng = random.Random("%s-%d" % (p.get("script_seed", pname), seed))      # twins share their scripts
-    q = tier == "quick"
+    q = tier == "quick" or bool(p.get("spread"))       # wide machines: quick-sized scenario families in both tiers (traces of 255-state machines validate slowly)
     if pname == "tour2":
         import components
         text, info = components.machine_tour_script("MC_tour")
